@@ -44,6 +44,31 @@ func effects(sp *refspec.Spec, pre, post *refspec.State) []string {
 			break
 		}
 	}
+	// activation out of a long queue whose (eligibility epoch, index) order is not the index order
+	{
+		type q struct{ e, i uint64 }
+		var queue []q
+		for i := range pre.Validators {
+			v := &pre.Validators[i]
+			if v.ActivationEligibilityEpoch != refspec.FarFutureEpoch && v.ActivationEpoch == refspec.FarFutureEpoch {
+				queue = append(queue, q{v.ActivationEligibilityEpoch, uint64(i)})
+			}
+		}
+		inverted := false
+		for k := 1; k < len(queue); k++ {
+			if queue[k].e < queue[k-1].e {
+				inverted = true
+			}
+		}
+		if len(queue) > 12 && inverted {
+			for _, x := range queue {
+				if int(x.i) < len(post.Validators) && post.Validators[x.i].ActivationEpoch != refspec.FarFutureEpoch {
+					m["activation-from-long-queue-not-in-index-order"] = true
+					break
+				}
+			}
+		}
+	}
 	exitEpochs := map[uint64]bool{}
 	for i := range pre.Validators {
 		a, b := &pre.Validators[i], &post.Validators[i]
@@ -322,7 +347,7 @@ func TestCheck(t *testing.T) {
 		return
 	}
 	r.Mandatory("effect:upgrade-to-altair", "effect:upgrade-to-bellatrix", "effect:upgrade-to-capella", "effect:upgrade-to-deneb",
-		"effect:justified-changed", "effect:finalized-changed", "effect:leak-active", "effect:ejection", "effect:activation",
+		"effect:justified-changed", "effect:finalized-changed", "effect:leak-active", "effect:ejection", "effect:activation", "effect:activation-from-long-queue-not-in-index-order",
 		"effect:effective-balance-changed", "effect:historical-append", "effect:eth1-reset", "effect:sync-rotation", "effect:inactivity-score-changed")
 	// ---- class tour: one directed template per mandatory deep class, free details still drawn
 	for ti, tour := range tours {
@@ -443,6 +468,38 @@ var tours = []struct {
 		for i := 0; i < 6; i++ {
 			cc.Actions = append(cc.Actions, sim.Action{Kind: "skip", Slots: rapid.IntRange(3, 9).Draw(rt, "skip")})
 			cc.Actions = append(cc.Actions, sim.Action{Kind: "block", Slots: 1, Plan: fullBlock(rt, rapid.SampledFrom([]int{0, 300, 500}).Draw(rt, "p"))})
+		}
+		return cc
+	}},
+	{"long-activation-queue-mixed-eligibility", func(rt *rapid.T) *sim.ChainCase {
+		// more than a dozen validators wait in the activation queue at once, and the queue's order is NOT the index
+		// order: three early depositors start with half a deposit and only become eligible after a later top-up,
+		// behind validators of higher index; the churn limit lets two through per epoch
+		fork := rapid.SampledFrom([][4]uint64{{farE, farE, farE, farE}, {1, farE, farE, farE}, {1, 2, 3, 4}, {1, 1, 1, 1}}).Draw(rt, "forks")
+		cc := &sim.ChainCase{Profile: "full"}
+		cc.Config = tourConfig(rt, fork, map[string]uint64{"MIN_PER_EPOCH_CHURN_LIMIT": rapid.SampledFrom([]uint64{2, 3}).Draw(rt, "churn"), "CHURN_LIMIT_QUOTIENT": 65536})
+		cc.Genesis = genesisN(rt, 16, true)
+		first := fullBlock(rt, 1000)
+		for i := 0; i < 3; i++ {
+			first.Queue = append(first.Queue, sim.DepPlan{Kind: 0, Amount: 5, Eth1: true}) // 17 ETH: not eligible yet
+		}
+		nfull := rapid.IntRange(9, 12).Draw(rt, "full")
+		for i := 0; i < nfull; i++ {
+			first.Queue = append(first.Queue, sim.DepPlan{Kind: 0, Amount: 0, Eth1: true})
+		}
+		cc.Actions = append(cc.Actions, sim.Action{Kind: "block", Slots: 1, Plan: first})
+		topAt := rapid.IntRange(5, 9).Draw(rt, "topup_at")
+		for s := 2; s <= 44; s++ {
+			b := fullBlock(rt, 1000)
+			if s == topAt {
+				for _, tg := range []int{45, 75, 18, 16 + 3*(16+3+nfull), 17 + 3*(16+3+nfull)*2} {
+					b.Queue = append(b.Queue, sim.DepPlan{Kind: 1, Amount: 3, Eth1: true, Target: tg})
+				}
+				for i := 0; i < rapid.IntRange(3, 6).Draw(rt, "more"); i++ {
+					b.Queue = append(b.Queue, sim.DepPlan{Kind: 0, Amount: 0, Eth1: true})
+				}
+			}
+			cc.Actions = append(cc.Actions, sim.Action{Kind: "block", Slots: 1, Plan: b})
 		}
 		return cc
 	}},
